@@ -26,6 +26,7 @@ CONSTANTS Replicas,      \* actor numbers, e.g. {1, 2}
           Keys,          \* map keys of the root object that are edited
           WithList,      \* TRUE: the base document holds a list at key "l"
           WithInserts,       \* TRUE: list inserts are part of the programs
+          WithRollback,      \* TRUE: programs contain rolled-back (possibly isolated) transactions
           WithHist           \* TRUE: finished behaviours also carry the expected views at every
                              \* set of historical heads (all antichains) of the acting replica
 
@@ -141,12 +142,29 @@ Merge(r) ==
     /\ UNCHANGED chgs
     /\ hist' = Append(hist, [r |-> r, merge |-> s, res |-> "ok", exp |-> Interp(known[r] \cup known[s], "cp")])
 
+(* C28: a transaction of one call, opened on the current state or isolated at an antichain H of  *)
+(* the replica's changes, and rolled back: the replica's op set -- hence everything it shows --  *)
+(* is unchanged.  The call is generated against the isolated op set; whether it succeeds or     *)
+(* fails is irrelevant after the rollback.                                                       *)
+RolledBack(r) ==
+  /\ WithRollback
+  /\ IF hist = <<>> THEN TRUE ELSE "rolledback" \notin DOMAIN hist[Len(hist)]
+  /\ \E k \in Keys : \E kind \in {"put", "del", "inc"} : \E v \in PutVals :
+     \E H \in {{}} \cup AntichainsC(Have(r)) :
+       /\ (kind # "put" => v = IntV(1))
+       /\ hist' = Append(hist, [r |-> r, rolledback |-> TRUE, iso |-> H,
+                                call |-> IF kind = "put" THEN [fn |-> "put", obj |-> ROOT, key |-> k, val |-> v]
+                                         ELSE IF kind = "del" THEN [fn |-> "delete", obj |-> ROOT, key |-> k]
+                                         ELSE [fn |-> "increment", obj |-> ROOT, key |-> k, by |-> 2],
+                                res |-> "any", exp |-> Interp(known[r], "cp")])
+       /\ UNCHANGED <<known, chgs>>
+
 Init ==
   /\ known = [r \in Replicas |-> BaseOps]
   /\ hist = <<>>
   /\ chgs = IF BaseOps = {} THEN <<>> ELSE (<<1, 1>> :> [ops |-> {o.id : o \in BaseOps}, deps |-> {}])
 
-Next == Len(hist) < Depth /\ \E r \in Replicas : MapCall(r) \/ ListCall(r) \/ Merge(r)
+Next == Len(hist) < Depth /\ \E r \in Replicas : MapCall(r) \/ ListCall(r) \/ Merge(r) \/ RolledBack(r)
 
 Spec == Init /\ [][Next]_vars
 
@@ -164,7 +182,7 @@ RegAfter(view, call) ==   \* the register the call addressed, in a view
 LocalEffect ==
   hist # <<>> =>
     LET h == hist[Len(hist)] IN
-    ("call" \in DOMAIN h /\ h.res = "ok") =>
+    ("call" \in DOMAIN h /\ h.res = "ok" /\ "rolledback" \notin DOMAIN h) =>
       LET after == RegAfter(h.exp, h.call) IN
       CASE h.call.fn \in {"put", "insert"} ->
              /\ Cardinality(after) = 1
